@@ -290,6 +290,18 @@ def plan_runs(ctx):
                 if so["reader"] == "csv" else
                 "project=ex1 WeatherFolder=historical soilId=%s fcode=109_120 plotNr=10001 Altitude=73 Latitude=52.6732 poligonID=29872") % so["sid"]
         plan.append({"line": "%s EndDate=12311981 resultfolder=R/c19_%d @every=%d @weather-ref=csv" % (base, len(plan), 60 if ctx.thorough else 16), "soil": so})
+    # the same tie and oracle with the pedotransfer routes PTF = 1..4 (non-default water-retention source): csv soils with a
+    # measured density and class-only horizons, txt soils (class only)
+    adm = [so for so in soils if min(so["input_density"]) >= 0.567]
+    pick = [so for so in adm if so["reader"] == "csv"][:2] + [so for so in adm if so["reader"] == "txt"][:2]
+    for k in range(8 if ctx.thorough else 4):
+        so = pick[k % len(pick)] if not ctx.thorough or k < 4 else adm[(5 + k) % len(adm)]
+        ptf = k % 4 + 1
+        base = ("project=bulk WeatherFolder=historical soilId=%s fcode=109_120 plotNr=10002 Altitude=73 Latitude=52.6732 poligonID=29872"
+                if so["reader"] == "csv" else
+                "project=ex1 WeatherFolder=historical soilId=%s fcode=109_120 plotNr=10001 Altitude=73 Latitude=52.6732 poligonID=29872") % so["sid"]
+        plan.append({"line": "%s PTF=%d EndDate=12311981 resultfolder=R/c19_%d @every=%d @weather-ref=csv" % (base, ptf, len(plan), 60 if ctx.thorough else 24),
+                     "soil": so, "ptf": ptf})
     json.dump(plan, open(mark, "w"))
     return ex, plan
 
@@ -357,7 +369,7 @@ def fail_key(line_key, plan):
     desc = "%s-reader:%s" % (so["reader"], "/".join("%s%s-stone%d" % ("bd" + ms if ms is not None else "class%d" % c, "", st) for (u, c, ms, st) in so["hs"]))
     if lowest < 0.567:
         return "bulk-density-below-0.567:input-density=%s" % lowest, so
-    return "envelope:generated-soil:%s" % desc, so
+    return "envelope:generated-soil:%s%s" % (desc, ":PTF=%d" % p["ptf"] if p.get("ptf") else ""), so
 
 
 def correspond(ctx):
@@ -418,6 +430,10 @@ def correspond(ctx):
     for x in rows:
         if x["k"] == "noweatherref":
             c.mismatches.append({"kind": "weather-file-not-readable-by-the-reference", "line": plan[x["line"]]["line"]})
+    ptf_runs = sorted({(plan[r_["line"]]["ptf"], plan[r_["line"]]["soil"]["reader"]) for r_ in runs if plan[r_["line"]].get("ptf") and r_["success"] and r_["days"] > 300})
+    ctx.extra["ptf_runs"] = ["PTF=%d %s soil" % t for t in ptf_runs]
+    if {t[0] for t in ptf_runs} != {1, 2, 3, 4} or {t[1] for t in ptf_runs} != {"csv", "txt"}:
+        c.mismatches.append({"kind": "coverage-missing", "what": "traced runs with PTF 1..4 on csv and txt soils", "have": ctx.extra["ptf_runs"]})
     if not any(str(plan[r_["line"]].get("weather", "")).startswith("col") and r_.get("weather_ref_days", 0) > 300 for r_ in runs):
         c.mismatches.append({"kind": "coverage-missing", "what": "no traced run on a weather file with permuted / name-containing columns"})
     if not any(r_.get("radiation_missing_days", 0) > 0 for r_ in runs):
